@@ -144,6 +144,12 @@ void run_cmdline(Ctx &c, const std::string &in, unsigned variant) {
 			// two option tables presented as one range (clang 14 cannot instantiate std::views::join of
 			// libstdc++ 12, so the joined range is written out)
 			frg::parse_arguments(line, Joined{t1.begin(), t1.end(), t2.begin(), t2.end()});
+		} else if(variant == 4) {
+			// a table with entries that have no callback (reserved names): a matching token must end in the library's assertion, not in a call through null
+			frg::array args = { frg::option{"a", frg::option::fn_type{nullptr, nullptr, false}}, frg::option{"1", frg::option::fn_type{nullptr, nullptr, true}}, frg::option{"aa", frg::store_true(tg->b1)},
+				frg::option{"a1", frg::as_number(tg->u)} };
+			c.tag("cmdline-null-callback-table");
+			frg::parse_arguments(line, args);
 		} else {
 			frg::array args = { frg::option{"n", frg::as_number(tg->i)}, frg::option{"n", frg::as_number(tg->q)}, frg::option{"", frg::store_false(tg->b1)} };
 			frg::parse_arguments(line, args);
@@ -191,17 +197,28 @@ void verif_case(Ctx &c) {
 	static const char *alpha[4] = {"%%%$*.-+ #0'123456789lhzjtdiuoxXcspn", "{{{}}}::0123456789bcdioxX", "\"\"   ==a1fobzquxpth", "0123456789999a-+ "};
 	size_t alen = strlen(alpha[parser]);
 	static const char *tokens[] = {"2147483647", "2147483648", "2147483649", "4294967295", "4294967296", "9223372036854775807", "9223372036854775808", "18446744073709551615", "18446744073709551616", "32767", "32768", "255", "256", "127", "128"};
+	bool long_run = false;
 	while(!t.done()) {
 		uint32_t e = t.next();
 		if(e >= 256 && (e & 0x3f00) == 0x3f00) { in += tokens[(e >> 16) % 15]; continue; }      // occasionally a whole boundary number
+		if(e >= 256 && (e & 0x3e00) == 0x3c00) {      // a run of ordinary characters whose length lies around a power of two (internal buffers), optionally followed by a meta token
+			static const unsigned base[] = {16, 32, 64, 64, 128, 256, 512, 1024, 62};
+			static const char *meta[4][6] = {{"%", "%%", "%d", "%5", "%*", "%1$"}, {"{{", "}}", "{", "{}", "{0}", "{:"}, {"\"", "=", " ", "a=", "\"\"", " a"}, {"9", "-", "+", "0", " ", "99"}};
+			unsigned L = base[(e >> 16) % 9] + (e >> 20) % 5 - 2;
+			in += std::string(L, "ab x"[(e >> 24) & 3]);
+			if((e >> 26) & 1) in += meta[parser][(e >> 27) % 6];
+			long_run = true;
+			continue;
+		}
 		in.push_back(e < 256 || (e & 0x300) == 0 ? (char)(e & 0xff) : alpha[parser][(e >> 10) % alen]);
 	}
 	if(in.size() > 4096) in.resize(4096);
+	if(long_run) c.tag("long-literal-run");
 	panicked = false;
 	switch(parser) {
 	case 0: run_printf(c, in, variant % 2); break;
 	case 1: run_fmt(c, in, variant % 3); break;
-	case 2: run_cmdline(c, in, variant % 4); break;
+	case 2: run_cmdline(c, in, variant % 5); break;
 	default: run_to_number(c, in, variant); break;
 	}
 	c.check_san("C20");
@@ -250,6 +267,7 @@ void verif_enum(Enum &e) {
 	if(!all(1 + 4, "{}:019xc", 4, "fmt without arguments: all strings over \"{}:019xc\" up to length 4")) return;
 	if(!all(2, "\" =a1", th ? 8 : 7, "parse_arguments (table 0): all strings over '\" =a1' up to the bound")) return;
 	if(!all(2 + 8, "\" =foqux1", th ? 6 : 5, "parse_arguments (joined tables): all strings over '\" =foqux1' up to the bound")) return;
+	if(!all(2 + 16, "\" =a1", th ? 7 : 6, "parse_arguments (table with null callbacks): all strings over '\" =a1' up to the bound")) return;
 	for(uint32_t ty = 0; ty < 6; ty++) if(!all(3 + 4 * ty, "09a", 6, "to_number: all strings over \"09a\" up to length 6")) return;
 	// long digit strings (overflow of every target type)
 	uint64_t count = 0;
@@ -282,4 +300,22 @@ void verif_enum(Enum &e) {
 		if(!with({2, '1', '='}, {})) return; if(!with({2, 'a', 'a', '='}, {' ', 'a'})) return; if(!with({2, 'a', '1', '='}, {})) return; if(!with({2 + 12, 'n', '='}, {})) return;
 	}
 	e.scope("neighbours of every integer type limit (incl. leading zeros) in every numeric position of the four parsers", count);
+	// runs of ordinary characters of EVERY length up to a bound (and around larger powers of two), followed by each meta token and a tail:
+	// a parser that collects text in an internal buffer is probed at every fill level
+	count = 0;
+	{
+		std::vector<unsigned> lens; for(unsigned L = 0; L <= (th ? 1100u : 300u); L++) lens.push_back(L);
+		for(unsigned b : {512u, 1024u, 2048u, 4096u}) for(int d = -3; d <= 3; d++) if(b + d > (th ? 1100u : 300u) && b + d <= 4090) lens.push_back(b + d);
+		struct M { uint32_t sel; const char *tok; };
+		static const M metas[] = {{1, "{{"}, {1, "}}"}, {1, "{}"}, {1, "{0}"}, {1, "{"}, {1 + 4, "{{"}, {0, "%%"}, {0, "%d"}, {0, "%5s"}, {0, "%"}, {2, "="}, {2, "\""}, {2, " a=1 "}, {2 + 4, "=\""}, {3, "9"}, {3 + 12, "9"}};
+		for(unsigned L : lens) for(const M &m : metas) for(char fill : {'a', '0'}) {
+			if((m.sel & 3) == 3 && fill == 'a') continue;
+			if((m.sel & 3) != 3 && fill == '0' && L > 64) continue;
+			std::vector<uint32_t> tape{m.sel}; for(unsigned i = 0; i < L; i++) tape.push_back((unsigned char)fill);
+			for(const char *q = m.tok; *q; q++) tape.push_back((unsigned char)*q);
+			for(char ch : {'b', 'c', 'd'}) tape.push_back((unsigned char)ch);
+			if(!e.run(tape)) return; count++;
+		}
+	}
+	e.scope("runs of ordinary characters of every length 0..bound (and around 512/1024/2048/4096) x 16 meta tokens of the four parsers, followed by a tail", count);
 }
